@@ -618,11 +618,11 @@ theorem FrameNL.toF {s s' : St} (h : FrameNL s s') (hl : s'.linear = s.linear) :
 theorem RelF.relin {m : Nat → Nat} {s s' : St} {rs : Ref.St} {env env' : Nat} (h : RelF m s rs env)
     (hsc : s'.scopes = s.scopes) (hfns : s'.fns = s.fns) (hcur : s'.curfunc = s.curfunc) (hheap : s'.heap = s.heap)
     (htr : s'.trace = s.trace) (hb : s'.linear.getLast? = some (some 0))
-    (hch : ∃ k, ChainF (isFnScope s) rs.frames k env' s'.linear ∧ FnChainF s rs.frames s'.linear k s.curfunc) :
-    RelF m s' rs env' := by
+    (hch : ∃ k, ChainF (isFnScope s) rs.frames k env' s'.linear ∧ FnChainF s rs.frames s'.linear k s.curfunc)
+    (hloops : s'.loops = s.loops := by rfl) : RelF m s' rs env' := by
   have hso : ∀ i, scopeOf s' i = scopeOf s i := fun i => by unfold scopeOf; rw [hsc]
   have hfl : isFnScope s' = isFnScope s := by funext i; unfold isFnScope; rw [hso]
-  have hk : FnsKeep s s' := FnsKeep.of_fns_eq hfns
+  have hk : FnsKeep s s' := FnsKeep.of_fns_eq hfns (LoopsExt.of_eq hloops)
   have hgood : ∀ id, GoodFn m s rs id → GoodFn m s' rs id := fun id hg =>
     hg.mono hk (by rw [hsc]; exact Nat.le_refl _) (fun i _ => by rw [hfl]) (RExt.refl rs) rfl
   obtain ⟨k, hc, hfc⟩ := hch
@@ -731,15 +731,6 @@ theorem SimX.cond_exit {p b rest pre post : List Instr} {Γ : List LCtx} {m m₁
 
 /-! ## Bookkeeping: the final loop table, the loop ids before the code -/
 
-/-- the loop records the generator completed are in the running state's loop table -/
-def LoopsFinal (gs' : GS) (s : St) : Prop :=
-  gs'.loops.length ≤ s.loops.length ∧
-    ∀ id, id < gs'.loops.length → id ∉ gs'.loopstack → s.loops.getD id {} = gs'.loops.getD id {}
-
-theorem LoopsFinal.first {g₁ g₂ : GS} {s : St} (h : LoopsFinal g₂ s) (hk : KeepFns g₁ g₂) : LoopsFinal g₁ s :=
-  ⟨Nat.le_trans hk.loopsLen h.1, fun id h1 h2 => by
-    rw [h.2 id (Nat.lt_of_lt_of_le h1 hk.loopsLen) (by rw [hk.loopstack]; exact h2)]; exact hk.loopsGet id h1⟩
-
 theorem LoopsFinal.frame {gs' : GS} {s s' : St} (h : LoopsFinal gs' s) (hf : Frame s s') : LoopsFinal gs' s' :=
   ⟨Nat.le_trans h.1 hf.loopsLen, fun id h1 h2 => by
     rw [hf.loops id (Nat.lt_of_lt_of_le h1 h.1)]; exact h.2 id h1 h2⟩
@@ -832,6 +823,7 @@ theorem FrameNL.pushScope (s : St) : FrameNL s s.pushScope :=
 
 theorem FnsKeep.of_nl {s s' : St} (hf : FrameNL s s') (hne : s.fns ≠ []) : FnsKeep s s' :=
   FnsKeep.of_eq hf.fnsLen hf.fns (by cases hs : s.fns with | nil => exact absurd hs hne | cons _ _ => simp [mainFn])
+    ⟨hf.loopsLen, hf.loops⟩
 
 /-- the loop facts after anything that keeps the scopes below and only pushes on the two stacks -/
 theorem CtxF.after_nl {Γ : List LCtx} {sc sc' : Nat} {s s' : St} {rs rs' : Ref.St} (h : CtxF Γ sc s rs)
@@ -1468,23 +1460,6 @@ theorem asmFor_offs (L : Nat) (i t s b : List Instr) :
     ∧ (asmFor L (i ++ [.popUntilMark L]) t (s ++ [.popUntilMark L]) (b ++ [.popUntilMark L])).2.2
         = ((i.length + 6 : Nat) : Int) := by
   constructor <;> simp [asmFor] <;> omega
-
-theorem LoopsFinal.for_body {gs g2 g5 : GS} {c : Ctx} {label : Option String} {b k : Int} {s : St}
-    (h : LoopsFinal (forDone g5 gs.loops.length b k) s) (h1 : KeepFns (forGs gs c label) g2) (h2 : KeepFns g2 g5) :
-    LoopsFinal g2 s := by
-  have hl5 : (forDone g5 gs.loops.length b k).loops.length = g5.loops.length := forDone_len _ _ _ _
-  have hst2 : g2.loopstack = gs.loops.length :: gs.loopstack := h1.loopstack
-  have hst5 : (forDone g5 gs.loops.length b k).loopstack = gs.loopstack := by
-    show g5.loopstack.drop 1 = _
-    rw [h2.loopstack, hst2]; rfl
-  refine ⟨Nat.le_trans h2.loopsLen (hl5 ▸ h.1), fun id hid hns => ?_⟩
-  rw [hst2] at hns
-  have hne : gs.loops.length ≠ id := fun e => hns (e ▸ List.mem_cons_self ..)
-  rw [h.2 id (by rw [hl5]; exact Nat.lt_of_lt_of_le hid h2.loopsLen)
-    (by rw [hst5]; exact fun hm => hns (List.mem_cons_of_mem _ hm))]
-  show (g5.loops.set gs.loops.length _).getD id {} = _
-  rw [List.getD_eq_getElem?_getD, List.getElem?_set_ne hne, ← List.getD_eq_getElem?_getD]
-  exact h2.loopsGet id hid
 
 theorem goodAbove_mark {L id : Nat} (h : L ≠ id) : GoodAbove id [some (.mark L)] := fun x hx => by
   simp only [List.mem_singleton] at hx
